@@ -1,8 +1,11 @@
 package checks
 
 import (
+	stdlog "log"
+
 	"encoding/binary"
 	"fmt"
+	ddlog "github.com/DataDog/datadog-traceroute/log"
 	"math/rand"
 	"net/netip"
 	"path/filepath"
@@ -321,7 +324,17 @@ func c09Workloads(perProbe int) []c09Workload {
 
 func hopsKey(res drive.Result) string { return fmt.Sprint(fmtRun(res)) }
 
+// nullWriter swallows log output without being io.Discard (for which the log package skips the formatting work): with
+// trace logging on, every log statement of the code under test really evaluates its arguments and closures.
+type nullWriter struct{}
+
+func (nullWriter) Write(b []byte) (int, error) { return len(b), nil }
+
 func checkC09() fw.Check {
+	// the whole check runs at the most verbose log level (the CLI's -v): diagnostics code is code, and it sees the
+	// hostile bytes first
+	stdlog.SetOutput(nullWriter{})
+	ddlog.SetLogLevel(ddlog.LevelTrace)
 	return fw.Check{
 		Prop:  "C09",
 		Level: "exploration",
@@ -330,7 +343,7 @@ func checkC09() fw.Check {
 			"distinct_nontrivial counts distinct (variant, workload, ref-kind) with injected frames read by the tool; counters give frames injected/read and twin-equal runs",
 		Workers:       16,
 		MinNontrivial: 30,
-		Assumptions:   []string{"refmatch decides which injected frames are legitimate replies (matching mutants only get crash/abort freedom and per-hop soundness)", "frames larger than the tool's 1024-byte buffer are delivered truncated, as the kernel does", "Linux build"},
+		Assumptions:   []string{"trace-level logging is switched on for the whole check (output discarded after formatting)", "refmatch decides which injected frames are legitimate replies (matching mutants only get crash/abort freedom and per-hop soundness)", "frames larger than the tool's 1024-byte buffer are delivered truncated, as the kernel does", "Linux build"},
 		Gen: func(tier string, seed int64) []fw.Case {
 			wins := []window{{1, 6}, {250, 255}}
 			perProbe, chunks := 800, 3
